@@ -906,7 +906,8 @@ fn error_tail(bs: &[u8], cap: usize) -> String {
         Err(_) => return "err meta".into(),
     };
     let (mut ok, mut err) = (0usize, 0usize);
-    if let Ok(it) = dm.rows_iter::<Row>() {
+    // raw rows (`ColumnIterator` target): an item is Ok iff all cells of the row could be skipped
+    if let Ok(it) = dm.rows_iter::<ColumnIterator>() {
         for r in it.take(cap) {
             if r.is_ok() { ok += 1 } else { err += 1 }
         }
